@@ -317,6 +317,26 @@ func DBPoint[T any](db T) T {
 	return db
 }
 
+var splitCommit atomic.Bool
+
+// SplitCommit asks for a second scheduling point in every read-write database transaction of the current
+// execution, between the return of the transaction closure and the commit (off at the start of every
+// execution). With it a defect that needs another thread to run in that window becomes reachable.
+func SplitCommit(on bool) { splitCommit.Store(on) }
+
+// TxnFn wraps the closure of db.Update (rewriter rule R8b).
+func TxnFn[D any, T any](db D, fn func(T) error) func(T) error {
+	if rt.Load() == nil || !splitCommit.Load() {
+		return fn
+	}
+	obj := reflect.ValueOf(db).Pointer()
+	return func(t T) error {
+		err := fn(t)
+		do(request{kind: OpTouch, obj: obj})
+		return err
+	}
+}
+
 var executionGen atomic.Uint64
 
 // ExecutionGen changes with every controlled execution (Run); shims use it to drop state cached in
